@@ -149,8 +149,8 @@ class BodyLocks:
                         cls = held[0][1]
                         st = set(state)
                         st.add((dst["l"], cls))
-                        if not src["p"]:
-                            st = {x for x in st if x[0] != sl}
+                        # the guard itself moved (whole local, or the payload of an Option / Entry wrapper)
+                        st = {x for x in st if x[0] != sl}
                         return frozenset(st)
             if n.ev["rv"] == "agg" and not dst["p"] and dst["l"] in self.guard_locals:
                 # wrapping a guard (Some(guard), tuple) transfers
